@@ -120,7 +120,7 @@ def run(v, tier, seed, replay):
                           "rule": "replay of one timed program", "samples": [{"program": lines[:30]}]}
             return
     seqcheck.run(v, tier, seed, replay, "C17", ["C17"], tree_oracles=["no_panic", "copies", "tree", "exactly_once", "attachments"], knobs=knobs,
-                 n_quick=(700, 100), n_thorough=(80000, 5000), known=c06.known, extra_cases=extra,
+                 n_quick=(2100, 300), n_thorough=(80000, 5000), known=c06.known, extra_cases=extra,
                  nontrivial=lambda lines, tr: any(l.split()[1] in ("pushChild", "toRecords") for l in lines),
                  assumptions=["absolute times of to_span_records and of delivered copies use different clock anchors; durations are compared with a 2 µs tolerance"])
     if not replay and not v.violations:
